@@ -46,7 +46,21 @@ def float_to_mpfr(x: RealFloat | Float):
 
     s_fmt = '-' if x.s else '+'
     fmt = f'{s_fmt}{hex(x.c)}p{x.exp}'
-    return gmp.mpfr(fmt, precision=x.p, base=16)
+    # not under the caller's gmpy2 context: its exponent range would overflow
+    # or flush an operand that the evaluation context can hold
+    with gmp.context(
+        emin=MPFR_EMIN,
+        emax=MPFR_EMAX,
+        trap_underflow=False,
+        trap_overflow=False,
+        trap_inexact=False,
+        trap_divzero=False,
+    ):
+        r = gmp.mpfr(fmt, precision=x.p, base=16)
+    if x.c != 0 and (r.is_infinite() or r.is_zero()):
+        # beyond what MPFR itself can hold: not a value to compute with
+        raise OverflowError(f'exponent of {x!r} is outside the range of MPFR')
+    return r
 
 def mpfr_to_float(x):
     """
